@@ -30,7 +30,7 @@ COMPONENTS = {
     "real": ["eolib.data.EoWriter (sanitisation on)", "eolib.data.EoReader (chunked mode)", "codecs"],
     "stub_or_harness": ["sender/receiver scripts (version-skewed read plans)", "expected-value computation"],
 }
-PROBES = ["mode_reassigned_mid_stream", "generated_serializer_session", "generated_deserializer_session", "unsanitised_y_in_header", "overread_spanning_integer", "empty_chunk", "string_only_y_diaeresis", "last_chunk_overread",
+PROBES = ["unchunked_overread_inside_chunk", "mode_reassigned_mid_stream", "generated_serializer_session", "generated_deserializer_session", "unsanitised_y_in_header", "overread_spanning_integer", "empty_chunk", "string_only_y_diaeresis", "last_chunk_overread",
           "underread_then_surplus", "first_byte_y_diaeresis", "last_byte_y_diaeresis", "one_char_y_diaeresis"]
 FAULT_KINDS = ["under_read", "over_read"]
 
@@ -74,6 +74,11 @@ def generate(streams, tier):
         for _ in range(rng.choice([0, 0, 1, 2, 4])):
             if rng.random() < 0.2:
                 surplus.append([rng.choice(["reassign_mode", "mode_off_on"])])   # no-ops by contract
+                continue
+            if rng.random() < 0.08:
+                # what a nested structure's plain tail does inside a chunked parent: read with the mode off, possibly
+                # across the break, then go back to chunked mode - next_chunk must still land on the next chunk
+                surplus.append(["unchunked_overread", rng.randrange(1, 12)])
                 continue
             op = rng.choice(SURPLUS)
             if op in ("get_bytes", "get_fixed_string", "get_fixed_encoded_string"):
@@ -432,6 +437,12 @@ def execute(plan, env):
             if s[0] == "reassign_mode":
                 r.chunked_reading_mode = True
                 res.count("probe.mode_reassigned_mid_stream")
+                continue
+            if s[0] == "unchunked_overread":
+                r.chunked_reading_mode = False
+                r.get_bytes(s[1])
+                r.chunked_reading_mode = True
+                res.count("probe.unchunked_overread_inside_chunk")
                 continue
             if s[0] == "mode_off_on":
                 r.chunked_reading_mode = False
